@@ -35,7 +35,7 @@ def check(ctx, run):
     run.not_decided.append("absence of aliasing for ALL alloc/release histories (heap shape over unbounded histories); decided: the effect of every primitive on every short list, the size-class table and the clear/teardown coverage")
     run.rule("R1", "size classes: class sizes ascending, isCached bound = largest class, getIndexForCache folded for every size 0..300 = smallest class >= size; alloc/dealloc/hasFreeBlocksOfSize classify through it; new blocks are allocated with the class size", floor=300, exhaustive=True)
     run.rule("R2", "moves folded on every used list of 0..3 blocks x every target: reserve = pop free + push used; release = unlink exactly the addressed block from used + push free; unknown pointer = lists untouched + the one-shot warning", floor=15, exhaustive=True)
-    run.rule("R3", "clears folded: clearCache destroys every class's free list with the class size and resets every head; clearAll also destroys used lists and non-cached blocks; destroying a list frees every block once (memory and header), reading next before freeing", floor=6)
+    run.rule("R3", "clears folded: clearCache destroys every class's free list with the class size and resets every head; clearAll also destroys used lists and non-cached blocks; neither re-arms the one-time warning; destroying a list frees every block once (memory and header), reading next before freeing", floor=6)
     run.rule("R4", "adaptor and teardown: the allocator adaptor forwards (size) / (memory, size); alloc/dealloc skeletons; the global cache restores the string allocator and returns everything (also buffers still in use) before it goes away", floor=6)
 
     # ---------------- R1 ----------------------------------------------------
@@ -58,6 +58,28 @@ def check(ctx, run):
         heads = [(cell(i, "freeMemoryHead_"), cell(i, "usedMemoryHead_")) for i in range(ncls)]
     except Unknown as u:
         raise AnalysisBroken("C18.R1: size class table could not be folded: %s" % u)
+    if any(not isinstance(s_, int) for s_ in sizes) or any(not isinstance(h_, int) for hh in heads for h_ in hh):
+        # (the table may be completed by the constructor that calls createInternalCacheNodes: fold the constructor whole)
+        ct = prog.fn(CA + "::" + CA)
+        run.analysed(ct)
+        ev = Evaluator(prog, ct, env={})
+        ev.heap_mode = True
+        ev.pass_object = True
+        ev.calls["TestMemoryAllocator::alloc_memory"] = lambda o, s, *a: 5000
+        ev.calls["defaultMallocAllocator"] = lambda *a: 77
+        ev.inline = {g.qn for g in prog.functions.values() if g.qn.startswith(CA + "::")} - {ct.qn}
+        try:
+            ev.run_blocks(ct.entry, max_steps=1500)
+        except Unknown as u:
+            raise AnalysisBroken("C18.R1: size class table could not be folded: %s" % u)
+
+        def cell2(i, m):
+            for k_ in ("@5000[%d].%s" % (i, m), "@%d.%s" % (5000 + i, m), "cache_[%d].%s" % (i, m)):
+                if k_ in ev.env:
+                    return ev.env[k_]
+            return None
+        sizes = [cell2(i, "size_") for i in range(ncls)]
+        heads = [(cell2(i, "freeMemoryHead_"), cell2(i, "usedMemoryHead_")) for i in range(ncls)]
     if any(not isinstance(s_, int) for s_ in sizes) or any(not isinstance(h_, int) for hh in heads for h_ in hh):
         raise AnalysisBroken("C18.R1: size class table could not be folded: the class array is not written through the block the allocator returned (sizes %s)" % sizes)
     ok = all(isinstance(s, int) for s in sizes) and sizes == sorted(sizes) and len(set(sizes)) == ncls and all(h == (0, 0) for h in heads)
@@ -272,6 +294,7 @@ def check(ctx, run):
                 env[k_] = 0
         env.update(cenv)
         env["cache_"] = ("ptr", "cache_", 0)
+        env["hasWarnedAboutDeallocations"] = 1      # (the one-time warning has been given: a clear must not re-arm it)
         ev = Evaluator(prog, f, env=env)
         ev.heap_mode = True
         calls = []
@@ -295,6 +318,8 @@ def check(ctx, run):
                         good = sorted(calls) == sorted(want) and all(h == 0 for h in heads + used) and env.get("nonCachedAllocations_") == 0
                     else:
                         good = sorted(calls) == sorted(want) and heads == [0] * ncls and used == [0 if i in ue else 10 * (i + 1) + 5 for i in range(ncls)] and env.get("nonCachedAllocations_") == 91
+                    if good and env.get("hasWarnedAboutDeallocations") != 1 and bad is None:
+                        bad = "the latch of the one-time warning is %s after the clear (it was set before): the warning about an unknown buffer would be given again" % env.get("hasWarnedAboutDeallocations")
                     if not good and bad is None:
                         bad = "classes with an empty free list %s / empty used list %s: destroys %s, expected %s; free heads afterwards %s (a destroyed list that keeps its head is handed out again, a list that is skipped is never returned to the allocator)" % (list(fe), list(ue), sorted(calls), sorted(want), heads)
         except Unknown as u:
